@@ -17,11 +17,9 @@ def _short(e):
 def run(prop, tier, seed):
     d, st = fe.corpus(tier, seed)
     lc = fe.leg_c(d)
-    try:
-        from . import factory_model
-        la = factory_model.leg_a(tier)
-    except ImportError:
-        la = {}
+    from . import factory_model
+    la = factory_model.leg_a(tier)
+    conf = factory_model.conformance(tier)
     inv, act = fe.T_FACTORY[prop]
     mine = set(inv) | set(act)
     mach, violations = [], []
@@ -85,6 +83,11 @@ def run(prop, tier, seed):
                 "configurations",
         "exhaustive": False,
     }
+    coverage["legB_model_vs_implementation"] = {
+        "what": "every Factory.tla configuration run on the real classes to the model's horizon; the observed outcome (all node "
+                "counters, items per edge) must be one of the outcomes TLC found over all same-instant interleavings",
+        "configurations": conf["checked"], "outcome_in_model_set": conf["matched"], "drift": conf["ndrift"],
+        "drift_samples": conf["drift"][:3], "model_outcome_sets": conf["model_outcome_sets"]}
     if states:
         coverage.update(states=states, transitions=trans,
                         legA_configs=[{"config": n, "distinct": r["distinct"], "generated": r["generated"]} for n, r in la.items()])
@@ -94,7 +97,8 @@ def run(prop, tier, seed):
         "instrumentation is outside-in: class-level wrappers on edge/store methods, Environment subclass, counter dict",
         "TLC, the Json/IOUtils modules, SimPy and the ledger fold of Trace_Factory.tla are trusted",
     ]
-    summary = "%d configurations on real classes, %d events judged by TLC, legA %d states" % (st["runs"], nev, states)
+    summary = "%d configurations on real classes, %d events judged by TLC, legA %d states, model/impl outcome drift %d/%d" % (
+        st["runs"], nev, states, conf["ndrift"], conf["checked"])
     return {"violations": violations, "machinery_errors": mach, "level": "model_checking", "coverage": coverage,
             "assumptions": assumptions, "summary": summary}
 
